@@ -114,14 +114,27 @@ Fixpoint run_dump_r (s : rstate) (ops : list op) : list sx :=
       SL [enc_out w; dump_with (query_r s')] :: run_dump_r s' rest
   end.
 
-Definition dec_case (c : sx) : option (database * list op) :=
+(* case (db ops) : dump after every op;  case (db ops 1) : "quiet" — only the return
+   values per op and ONE dump at the end (the implementation's getters fill read caches,
+   so a history observed only at its end exercises the unloaded-cache paths) *)
+Definition dec_case (c : sx) : option (database * list op * bool) :=
   match c with
-  | SL [db; ops] =>
-      match sx_list_of dec_dbacct db, sx_list_of dec_op ops with
-      | Some db, Some ops => Some (list_to_map db, ops)
-      | _, _ => None
+  | SL (db :: ops :: rest) =>
+      match sx_list_of dec_dbacct db, sx_list_of dec_op ops, rest with
+      | Some db, Some ops, [] => Some (list_to_map db, ops, false)
+      | Some db, Some ops, [SI 1%Z] => Some (list_to_map db, ops, true)
+      | _, _, _ => None
       end
   | _ => None
+  end.
+
+Fixpoint run_quiet_j (j : jstate) (ops : list op) : list sx * jstate :=
+  match ops with
+  | [] => ([], j)
+  | o :: rest =>
+      let '(j', w) := step_j j o in
+      let '(l, jf) := run_quiet_j j' rest in
+      ((if j_bad j' then SErr 99 else enc_out w) :: l, jf)
   end.
 
 (* Cross-check of the refinement statement itself, on every case: 1 unless the history
@@ -150,20 +163,22 @@ Fixpoint hist_ok_b (j : jstate) (ops : list op) : bool :=
 
 Definition C13_run (c : sx) : sx :=
   match dec_case c with
-  | Some (db, ops) =>
-      SL (run_dump_j (init_j db) ops
+  | Some (db, ops, quiet) =>
+      SL ((if quiet
+           then let '(l, jf) := run_quiet_j (init_j db) ops in l ++ [dump_with (query_j jf)]
+           else run_dump_j (init_j db) ops)
           ++ [sbool (negb (hist_ok_b (init_j db) ops) || agree_run (init_j db) (init_r db) ops)])
   | None => SErr 0
   end.
 
 Definition C13_run_ref (c : sx) : sx :=
   match dec_case c with
-  | Some (db, ops) => SL (run_dump_r (init_r db) ops)
+  | Some (db, ops, _) => SL (run_dump_r (init_r db) ops)
   | None => SErr 0
   end.
 
 Definition C13_guard (c : sx) : sx :=
   match dec_case c with
-  | Some (db, ops) => sbool (hist_ok_b (init_j db) ops)
+  | Some (db, ops, _) => sbool (hist_ok_b (init_j db) ops)
   | None => SErr 0
   end.
